@@ -50,7 +50,7 @@ def make_checker(ctx, files, clients, record):
 
 
 def run(ctx, build):
-    R = ctx.runner('Tftp')
+    R = ctx.try_runner('Tftp')
     rng = ctx.rng
     nsess = 400 if ctx.thorough else 120
     if ctx.widen:
